@@ -123,15 +123,15 @@ func Hash(trace []string) uint64 {
 
 // Spec describes a batch of sequences.
 type Spec struct {
-	Cap     int    `json:"cap"`
-	Keys    int    `json:"keys"`
-	Depth   int    `json:"depth,omitempty"` // exhaustive batch: sequences Lo..Hi-1 of this depth
-	Lo      uint64 `json:"lo,omitempty"`
-	Hi      uint64 `json:"hi,omitempty"`
-	Seed    uint64 `json:"seed,omitempty"` // random sequence
-	Steps   int    `json:"steps,omitempty"`
-	Dirty   int    `json:"dirty,omitempty"`
-	Full    bool   `json:"full,omitempty"` // return the whole trace instead of a hash
+	Cap   int    `json:"cap"`
+	Keys  int    `json:"keys"`
+	Depth int    `json:"depth,omitempty"` // exhaustive batch: sequences Lo..Hi-1 of this depth
+	Lo    uint64 `json:"lo,omitempty"`
+	Hi    uint64 `json:"hi,omitempty"`
+	Seed  uint64 `json:"seed,omitempty"` // random sequence
+	Steps int    `json:"steps,omitempty"`
+	Dirty int    `json:"dirty,omitempty"`
+	Full  bool   `json:"full,omitempty"` // return the whole trace instead of a hash
 }
 
 func (sp *Spec) Sequences(f func(n uint64, steps []Step)) {
